@@ -101,7 +101,8 @@ class ExactAlgorithmPulp(RankAggAlgorithm, PairwiseBasedAlgorithm):
                          scoring_scheme=scoring_scheme,
                          att={ConsensusFeature.NECESSARILY_OPTIMAL: True,
                               ConsensusFeature.ASSOCIATED_ALGORITHM: self.get_full_name(),
-                              ConsensusFeature.KEMENY_SCORE: prob.objective.value(),
+                              ConsensusFeature.KEMENY_SCORE: sum(my_values[cpt] * my_vars[cpt].value()
+                                                                for cpt in range(len(my_vars))),
                               })
 
     @staticmethod
